@@ -296,9 +296,25 @@ func ms(v int64) int64   { return v / 1e6 }
 const second = int64(1e9)
 const minute = 60 * second
 
+// bucketWiden: a range aggregation over d reads whole range buckets (FixPeriodPlanner: From = from/d*d, To = to/d*d + d):
+// the data bounds may be widened exactly to the enclosing bucket boundaries, not by a whole d on either side
+func bucketWiden(from, to, d int64) (int64, int64) {
+	if d <= 0 {
+		return 0, 0
+	}
+	return from - from/d*d, to/d*d + d - to - 1
+}
+
 func lokiRange(name, q string, stepS string, widen int64) Endpoint {
 	return Endpoint{Name: name, Api: "logs", Build: func(w Window) (*http.Request, int64, int64) {
-		return get("/loki/api/v1/query_range", "query", q, "start", ns(w.FromNs), "end", ns(w.ToNs), "step", stepS, "limit", "100"), widen, widen
+		lo, hi := bucketWiden(w.FromNs, w.ToNs, widen)
+		// at most 11000 points per series are accepted: long windows get a longer step
+		var step int64
+		fmt.Sscan(stepS, &step)
+		if m := (w.ToNs-w.FromNs)/second/10000 + 1; m > step {
+			step = m
+		}
+		return get("/loki/api/v1/query_range", "query", q, "start", ns(w.FromNs), "end", ns(w.ToNs), "step", fmt.Sprint(step), "limit", "100"), lo, hi
 	}}
 }
 
@@ -434,12 +450,16 @@ func endpoints() []Endpoint {
 		lokiRange("loki_range_agg", `sum by (a) (count_over_time({a="b"} |= "x" [1m]))`, "30", 1*minute),
 		lokiRange("loki_range_unwrap", `sum_over_time({a="b"} | json x="y" | unwrap x [1m])`, "30", 1*minute),
 		lokiRange("loki_range_topk", `topk(2, rate({a="b"}[1m]))`, "60", 1*minute),
+		// a range that is no multiple of 15 s: the roll-up shortcut must not be taken (its slots do not tile the range buckets)
+		lokiRange("loki_range_rate_20s", `rate({a="b"}[20s])`, "20", 20*second),
+		lokiRange("loki_range_count_45s", `sum by (a) (count_over_time({a="b"}[45s]))`, "45", 45*second),
 		{Name: "loki_instant_log", Api: "logs", Build: func(w Window) (*http.Request, int64, int64) {
 			// the instant endpoint reads the 5 minutes before `time`: its window is [time - 5 min, time]
 			return get("/loki/api/v1/query", "query", `{a="b"} |= "x"`, "time", ns(w.ToNs), "limit", "10"), 0, 0
 		}},
 		{Name: "loki_instant_rate", Api: "logs", Build: func(w Window) (*http.Request, int64, int64) {
-			return get("/loki/api/v1/query", "query", `rate({a="b"}[1m])`, "time", ns(w.ToNs)), 1 * minute, 1 * minute
+			lo, hi := bucketWiden(w.ToNs-5*minute, w.ToNs, 1*minute)
+			return get("/loki/api/v1/query", "query", `rate({a="b"}[1m])`, "time", ns(w.ToNs)), lo, hi
 		}},
 		{Name: "loki_tail", Api: "logs", WS: true, Build: func(w Window) (*http.Request, int64, int64) {
 			return get("/loki/api/v1/tail", "query", `{a="b"} |= "x"`), 2 * second, 2 * second
